@@ -72,14 +72,7 @@ Definition step_good0 (m : nsmap) (s : step) : bool :=
   | _ => false
   end.
 
-(* ... and no attribute the predicates require has a reserved name (`xmlns`, or the namespace of declarations) *)
-Definition step_good (m : nsmap) (s : step) : bool := step_good0 m s && unreserved m s.
-Lemma good_split m ss : forallb (step_good m) ss = true ->
-  forallb (step_good0 m) ss = true /\ forallb (unreserved m) ss = true.
-Proof.
-  induction ss as [|s ss IH]; cbn; [auto|]. unfold step_good at 1. intro H. apply andb_prop in H as [H1 H2].
-  apply andb_prop in H1 as [A B]. destruct (IH H2) as [C D]. rewrite A, B, C, D. auto.
-Qed.
+Definition step_good (m : nsmap) (s : step) : bool := step_good0 m s.
 Ltac use_unreserved Us Ed H :=
   unfold unreserved in Us; rewrite Ed in Us; apply negb_true_iff in Us; rewrite Us in H.
 
@@ -478,6 +471,22 @@ Proof.
   rewrite (nth_error_update_nth _ _ _ _ E). eapply IH; eauto.
 Qed.
 
+Lemma good0_loc m s : step_good0 m s = true -> loc_step s = true.
+Proof.
+  destruct s as [a t ps]. destruct a; try discriminate. destruct t as [pr l| | |]; try discriminate. cbn. intro G.
+  do 5 (apply andb_prop in G as [G _]). exact G.
+Qed.
+Lemma precheck_unreserved m : forall ss, forallb loc_step ss = true -> pre_check m ss = None -> forallb (unreserved m) ss = true.
+Proof.
+  induction ss as [|s ss IH]; intros G H; [reflexivity|]. cbn [forallb] in G. apply andb_prop in G as [Gs Gr].
+  destruct s as [a t ps]. destruct a; try discriminate Gs. destruct t as [pr l| | |]; try discriminate Gs.
+  cbn [pre_check] in H. cbn [forallb unreserved]. destruct (derived_preds ps) as [ds|]; [|discriminate H].
+  destruct (prefixes_declared m pr ds); [|discriminate H]. destruct (existsb (reserved_attr m) ds); [discriminate H|].
+  cbn. apply IH; assumption.
+Qed.
+Lemma good_loc_all m ss : forallb (step_good0 m) ss = true -> forallb loc_step ss = true.
+Proof. rewrite !forallb_forall. intros H s Hs. eapply good0_loc. apply H. exact Hs. Qed.
+
 Lemma all_visible : tags_visible all_vis.
 Proof. intros t _. reflexivity. Qed.
 
@@ -489,13 +498,14 @@ Lemma foc_finds_relative vis root m ss q t0 t' p :
   foc vis root m m [LocationPath false ss] (0 :: q) = FocOk t' p ->
   exists n, eval (docnode t') m [LocationPath false ss] (ctx_nd t' (0 :: q)) = Ok [n] /\ fst n = p.
 Proof.
-  intros G' Hs Ht. destruct (good_split m ss G') as [G U]. pose proof all_visible as Hv. unfold foc.
+  intros G Hs Ht. pose proof all_visible as Hv. unfold foc.
   destruct (negb (locatable [LocationPath false ss])); [discriminate|].
   assert (Ec : ctx_nd root (0 :: q) = (0 :: q, t0)) by (unfold ctx_nd; cbn; rewrite Hs; reflexivity).
   fold (ctx_nd root (0 :: q)).
   destruct (eval (docnode root) m [LocationPath false ss] (ctx_nd root (0 :: q))) as [[|x [|y l]]|f] eqn:Ev; try discriminate.
   - (* creation *)
-    rewrite Hs. cbn [opt_default]. destruct (pre_check m ss); [discriminate|].
+    rewrite Hs. cbn [opt_default]. destruct (pre_check m ss) eqn:Hpc; [discriminate|].
+    pose proof (precheck_unreserved m ss (good_loc_all m ss G) Hpc) as U.
     destruct (create_in all_vis m ss (0 :: q) t0) as [t0' p'|t0' f] eqn:Ecr; [|discriminate]. intro H. inversion H; subst; clear H.
     destruct (create_finds all_vis m (docnode (replace_at root q t0')) ss (0 :: q) t0 t0' p Hv G U Ht Ecr) as (sub & q' & Hf & Hq).
     exists (p, sub). split; [|reflexivity].
@@ -517,11 +527,12 @@ Lemma foc_finds_absolute vis root m s r ctx t' p :
   foc vis root m m [LocationPath true (s :: r)] ctx = FocOk t' p ->
   exists n, eval (docnode t') m [LocationPath true (s :: r)] (ctx_nd t' ctx) = Ok [n] /\ fst n = p.
 Proof.
-  intros G'. destruct (good_split m (s :: r) G') as [G U]. pose proof all_visible as Hv. unfold foc.
+  intros G. pose proof all_visible as Hv. unfold foc.
   destruct (negb (locatable [LocationPath true (s :: r)])); [discriminate|].
   fold (ctx_nd root ctx).
   destruct (eval (docnode root) m [LocationPath true (s :: r)] (ctx_nd root ctx)) as [[|x [|y l]]|f] eqn:Ev; try discriminate.
-  - destruct (pre_check m (s :: r)); [discriminate|].
+  - destruct (pre_check m (s :: r)) eqn:Hpc; [discriminate|].
+    pose proof (precheck_unreserved m (s :: r) (good_loc_all m _ G) Hpc) as U.
     cbn [forallb] in G. apply andb_prop in G as [Gs Gr]. cbn [forallb] in U. apply andb_prop in U as [Us Ur].
     destruct s as [a t ps]. destruct a; try discriminate Gs. destruct t as [pr l| | |]; try discriminate Gs.
     cbn [create_in].
@@ -679,10 +690,11 @@ Lemma foc_minimal vis root m ab ss q t0 t' p :
   foc vis root m m [LocationPath ab ss] (0 :: q) = FocOk t' p ->
   t' = root \/ (ab = false /\ exists t0', grown t0 t0' /\ t' = replace_at root q t0') \/ (ab = true /\ grown root t').
 Proof.
-  intros G' Hs Ht. destruct (good_split m ss G') as [G U]. pose proof all_visible as Hv. unfold foc. destruct (negb (locatable [LocationPath ab ss])); [discriminate|].
+  intros G Hs Ht. pose proof all_visible as Hv. unfold foc. destruct (negb (locatable [LocationPath ab ss])); [discriminate|].
   destruct (eval _ _ _ _) as [[|x [|y l]]|f]; try discriminate.
   - destruct ab.
-    + destruct (pre_check m ss); [discriminate|].
+    + destruct (pre_check m ss) eqn:Hpc; [discriminate|].
+      pose proof (precheck_unreserved m ss (good_loc_all m ss G) Hpc) as U.
       destruct ss as [|s r]; [cbn; intro H; inversion H; left; reflexivity|].
       cbn [forallb] in G. apply andb_prop in G as [Gs Gr]. cbn [forallb] in U. apply andb_prop in U as [Us Ur].
       destruct s as [a t ps]. destruct a; try discriminate Gs. destruct t as [pr l| | |]; try discriminate Gs.
@@ -691,7 +703,8 @@ Proof.
       rw_step E0. cbn beta iota. cbn [visible_from]. destruct (smatch m pr l ps root) eqn:Fr; cbn [map fst snd app]; [|discriminate].
       destruct (create_in all_vis m r [0] root) as [k' p'|k' f] eqn:Ecr; [|discriminate]. intro H. inversion H; subst; clear H.
       right. right. split; [reflexivity|]. cbn. eapply (create_grown all_vis m r _ _ _ _ Hv Gr Ur); [eapply smatch_tag; eauto|exact Ecr].
-    + rewrite Hs. cbn [opt_default]. destruct (pre_check m ss); [discriminate|].
+    + rewrite Hs. cbn [opt_default]. destruct (pre_check m ss) eqn:Hpc; [discriminate|].
+      pose proof (precheck_unreserved m ss (good_loc_all m ss G) Hpc) as U.
       destruct (create_in all_vis m ss (0 :: q) t0) as [t0' p'|t0' f] eqn:Ecr; [|discriminate]. intro H. inversion H; subst; clear H.
       right. left. split; [reflexivity|]. exists t0'. split; [|reflexivity]. eapply (create_grown all_vis m ss _ _ _ _ Hv G U Ht Ecr).
   - intro H. inversion H. left. reflexivity.
@@ -788,19 +801,19 @@ Qed.
 Lemma locatable_inv e : locatable e = true -> exists ab ss, e = [LocationPath ab ss] /\ forallb loc_step ss = true.
 Proof. destruct e as [|[ab ss] [|? ?]]; cbn; try discriminate. eauto. Qed.
 
-Definition no_reserved (m : nsmap) (e : xpath_expr) : bool := forallb (fun p => forallb (unreserved m) (path_steps p)) e.
 Lemma foc_fault_unchanged vis root me mc e q t0 t' f :
-  no_reserved mc e = true -> subtree root q = Some t0 -> foc vis root me mc e (0 :: q) = FocFault t' f -> t' = root.
+  subtree root q = Some t0 -> foc vis root me mc e (0 :: q) = FocFault t' f -> t' = root.
 Proof.
-  intros Hnr Hs. unfold foc. destruct (locatable e) eqn:L; cbn [negb]; [|intro H; inversion H; reflexivity].
+  intros Hs. unfold foc. destruct (locatable e) eqn:L; cbn [negb]; [|intro H; inversion H; reflexivity].
   destruct (locatable_inv e L) as (ab & ss & -> & G).
-  assert (U : forallb (unreserved mc) ss = true) by (cbn in Hnr; rewrite andb_true_r in Hnr; exact Hnr).
   destruct (eval _ _ _ _) as [[|x [|y l]]|f0]; try (intro H; inversion H; reflexivity).
   destruct ab.
-  - destruct (pre_check mc ss); [intro H; inversion H; reflexivity|].
+  - destruct (pre_check mc ss) eqn:Hpc; [intro H; inversion H; reflexivity|].
+    pose proof (precheck_unreserved mc ss G Hpc) as U.
     destruct (create_in all_vis mc ss [] (docnode root)) as [D' p'|D' f'] eqn:Ecr; [discriminate|]. intro H. inversion H; subst; clear H.
     rewrite (create_unchanged_loc all_vis mc ss [] (docnode root) D' f G U Ecr). reflexivity.
-  - rewrite Hs. cbn [opt_default]. destruct (pre_check mc ss); [intro H; inversion H; reflexivity|].
+  - rewrite Hs. cbn [opt_default]. destruct (pre_check mc ss) eqn:Hpc; [intro H; inversion H; reflexivity|].
+    pose proof (precheck_unreserved mc ss G Hpc) as U.
     destruct (create_in all_vis mc ss (0 :: q) t0) as [t0' p'|t0' f'] eqn:Ecr; [discriminate|]. intro H. inversion H; subst; clear H.
     rewrite (create_unchanged_loc all_vis mc ss (0 :: q) t0 t0' f G U Ecr). apply replace_at_same. exact Hs.
 Qed.
